@@ -71,6 +71,19 @@ Inductive target_result :=
 | TOk (s : st) (r : Z)
 | TErr (s : st) (code : Z).
 
+(* ensureNoThirdPartyIsMessingWithUs: the counter after the check of this cycle *)
+Definition third_party_cnt (c : cfg) (s : st) (i : cin) : Z :=
+  match s_last s with
+  | Some l =>
+      if supports_pwm (s_fan s) i && ci_read_ok i then
+        match written (c_pm c) l with
+        | FcVal expected => if s_pwm s =? expected then s_cnt s else s_cnt s + 1
+        | _ => s_cnt s
+        end
+      else s_cnt s
+  | None => s_cnt s
+  end.
+
 (* calculateTargetPwm *)
 Definition calc_target (c : cfg) (s : st) (i : cin) : target_result :=
   let f := s_fan s in
@@ -93,18 +106,7 @@ Definition calc_target (c : cfg) (s : st) (i : cin) : target_result :=
       let hi := GetMaxPwm f in
       let lo := GetMinPwm f + s_offset s in
       let r := rescale_c t lo hi in
-      (* ensureNoThirdPartyIsMessingWithUs *)
-      let cnt' :=
-        match s_last s with
-        | Some l =>
-            if supports_pwm f i && ci_read_ok i then
-              match written (c_pm c) l with
-              | FcVal expected => if s_pwm s =? expected then s_cnt s else s_cnt s + 1
-              | _ => s_cnt s
-              end
-            else s_cnt s
-        | None => s_cnt s
-        end in
+      let cnt' := third_party_cnt c s i in
       let s1 := mkSt f (s_last s) (Some t) (s_offset s) cnt' alg' (s_pwm s) (s_mode s) (s_stopped s) in
       if has_rpm f && never_stop f && (match s_last s with Some l => l =? r | None => false end)
          && stall_test (GetRpmAvg f) then
